@@ -117,7 +117,14 @@ class TcpConnection():
     def _run(self) -> None:
         while self.is_connected and not self._stop_threads:
             self.events = self.selector.select(timeout=TRACKING_SOCKET_EVENTS_TIMEOUT)
-            self.tracking_events_count += TRACKING_SOCKET_EVENTS_TIMEOUT
+
+            #: The watchdog is about idle time: a wake-up with something to
+            #: read or write starts the count again, only one that timed out
+            #: adds to it.
+            if self.events:
+                self.tracking_events_count = 0
+            else:
+                self.tracking_events_count += TRACKING_SOCKET_EVENTS_TIMEOUT
 
             for key, mask in self.events:
                 if mask & selectors.EVENT_WRITE:
